@@ -28,31 +28,51 @@ pub open spec fn is_flat_image<O1, O2>(ty: Seq<O2>, a: Seq<O1>, obj: spec_fn(O1)
 
 /// The contract of the trait Functor of /repo: the action on objects is a per-generator list, the action
 /// on a tensoring of operations returns a well-formed diagram of the corresponding type.
-pub trait Functor<O1, A1, O2, A2> {
+pub trait Functor<O1: Clone, A1: Clone, O2, A2> {
     /// F on one generating object
     spec fn obj(&self, o: O1) -> Seq<O2>;
 
+    /// an upper bound for every size of F applied to a tensoring of operations (nodes, hyperedges, incidence and
+    /// interface lengths): lets callers state machine-arithmetic preconditions about the image the functor really returns
+    spec fn ops_bound(&self, ops: Operations<O1, A1>) -> nat;
+
     fn map_object(&self, a: &SemifiniteFunction<O1>) -> (r: IndexedCoproduct<SemifiniteFunction<O2>>)
+        requires a@.len() < usize::MAX, total(flat_sizes(a@, |o: O1| self.obj(o))) < usize::MAX, lawful_clone::<O1>(),
         ensures r.wf(), r.sources.table@.len() == a@.len(),
             forall|i: int| 0 <= i < a@.len() ==> #[trigger] seg_is(r, i, self.obj(a@[i]));
 
     fn map_operations(&self, ops: Operations<O1, A1>) -> (r: OpenHypergraph<O2, A2>)
-        requires ops.wf(),
+        requires ops.wf(), ops.a.values@.len() + ops.b.values@.len() < usize::MAX, ops.x@.len() < usize::MAX, small(self.ops_bound(ops)),
+            lawful_clone::<O1>(), lawful_clone::<A1>(),
         ensures r.wf(),
             is_flat_image(r.src_type(), ops.a.values@, |o: O1| self.obj(o)),
-            is_flat_image(r.tgt_type(), ops.b.values@, |o: O1| self.obj(o));
+            is_flat_image(r.tgt_type(), ops.b.values@, |o: O1| self.obj(o)),
+            oh_sizes_le(r, self.ops_bound(ops));
+}
+
+/// every size of the diagram is at most b
+pub open spec fn oh_sizes_le<O, A>(r: OpenHypergraph<O, A>, b: nat) -> bool {
+    &&& r.h.w@.len() <= b && r.h.x@.len() <= b && r.h.s.values.table@.len() <= b && r.h.t.values.table@.len() <= b
+    &&& r.s.table@.len() <= b && r.t.table@.len() <= b
 }
 
 pub open spec fn small(n: nat) -> bool { n < 0x1000_0000 }
 ''')
 
+raw(r'''
+/// `ops` is the tensoring of the operations of f (what to_operations returns)
+pub open spec fn is_ops_of<O: Clone, A: Clone>(f: OpenHypergraph<O, A>, r: Operations<O, A>) -> bool {
+    r.wf() && r.x@.len() == f.h.x@.len() && (lawful_clone::<A>() ==> r.x@ == f.h.x@)
+    && r.a.sources.table@ == f.h.s.sources.table@ && r.b.sources.table@ == f.h.t.sources.table@
+    && r.a.values@.len() == f.h.s.values.table@.len() && r.b.values@.len() == f.h.t.values.table@.len()
+    && (lawful_clone::<O>() ==> (forall|p: int| 0 <= p < f.h.s.values.table@.len() ==> r.a.values@[p] == f.h.w@[f.h.s.values.table@[p] as int])
+                              && (forall|p: int| 0 <= p < f.h.t.values.table@.len() ==> r.b.values@[p] == f.h.w@[f.h.t.values.table@[p] as int]))
+}
+''')
+
 fn(FT, 'to_operations', kind='free', status='P', props=['C12', 'C05'], where_add='O: Clone, A: Clone',
    requires=['f.wf()'],
-   ensures=[('C12.to_operations', '''r.wf() && r.x@.len() == f.h.x@.len() && (lawful_clone::<A>() ==> r.x@ == f.h.x@)
-                && r.a.sources.table@ == f.h.s.sources.table@ && r.b.sources.table@ == f.h.t.sources.table@
-                && r.a.values@.len() == f.h.s.values.table@.len() && r.b.values@.len() == f.h.t.values.table@.len()
-                && (lawful_clone::<O>() ==> (forall|p: int| 0 <= p < f.h.s.values.table@.len() ==> r.a.values@[p] == f.h.w@[f.h.s.values.table@[p] as int])
-                                          && (forall|p: int| 0 <= p < f.h.t.values.table@.len() ==> r.b.values@[p] == f.h.w@[f.h.t.values.table@[p] as int]))''')])
+   ensures=[('C12.to_operations', 'is_ops_of(*f, r)')])
 fn(FT, 'map_half_spider', kind='free', status='P', props=['C12', 'C05'], where_add='O: Clone',
    requires=['w.wf()', 'f.wf()', 'f.target == w.sources.table@.len()', 'w.values@.len() < usize::MAX', 'w.sources.table@.len() < usize::MAX',
              'f.table@.len() < usize::MAX', 'total(kseq(w.sources.table@, f.table@)) <= usize::MAX'],
@@ -187,11 +207,42 @@ pub proof fn lemma_block_to_flat<O1, O2>(ty: Seq<O2>, fw: IndexedCoproduct<Semif
 }
 ''')
 
+raw(r'''
+/// machine arithmetic for define_map_arrow, over f and the object map only
+pub open spec fn dma_sizes<O1, A1, O2>(f: OpenHypergraph<O1, A1>, obj: spec_fn(O1) -> Seq<O2>) -> bool {
+    let ops_a = Seq::new(f.h.s.values.table@.len(), |p: int| f.h.w@[f.h.s.values.table@[p] as int]);
+    let ops_b = Seq::new(f.h.t.values.table@.len(), |p: int| f.h.w@[f.h.t.values.table@[p] as int]);
+    &&& small(f.h.w@.len()) && small(f.h.x@.len()) && small(total(flat_sizes(f.h.w@, obj)) as nat)
+    &&& small(f.s.table@.len()) && small(f.t.table@.len()) && small(f.h.s.values.table@.len()) && small(f.h.t.values.table@.len())
+    &&& small(total(flat_sizes(f.src_type(), obj)) as nat) && small(total(flat_sizes(f.tgt_type(), obj)) as nat)
+    &&& small(total(flat_sizes(ops_a, obj)) as nat) && small(total(flat_sizes(ops_b, obj)) as nat)
+}
+
+/// the sizes of the blocks of fw are the lengths of the object images
+pub proof fn lemma_fw_sizes<O1, O2>(fw: IndexedCoproduct<SemifiniteFunction<O2>>, w: Seq<O1>, obj: spec_fn(O1) -> Seq<O2>, idx: Seq<usize>)
+    requires fw.sources.table@.len() == w.len(), forall|i: int| 0 <= i < w.len() ==> #[trigger] seg_is(fw, i, obj(w[i])),
+        forall|p: int| 0 <= p < idx.len() ==> (#[trigger] idx[p]) < w.len(),
+    ensures kseq(fw.sources.table@, idx) =~= flat_sizes(Seq::new(idx.len(), |p: int| w[idx[p] as int]), obj),
+        fw.sources.table@ =~= flat_sizes(w, obj),
+{
+    let a = Seq::new(idx.len(), |p: int| w[idx[p] as int]);
+    assert forall|p: int| 0 <= p < idx.len() implies kseq(fw.sources.table@, idx)[p] == flat_sizes(a, obj)[p] by {
+        assert(seg_is(fw, idx[p] as int, obj(w[idx[p] as int])));
+    }
+    assert forall|i: int| 0 <= i < w.len() implies fw.sources.table@[i] == flat_sizes(w, obj)[i] by {
+        assert(seg_is(fw, i, obj(w[i])));
+    }
+}
+''')
+
 fn(FT, 'define_map_arrow', kind='free', status='P', props=['C12', 'C05'],
    where_add='O1: Clone + PartialEq, A1: Clone, O2: Clone + PartialEq, A2: Clone, F: Functor<O1, A1, O2, A2>',
    requires=['f.wf()', 'lawful_clone::<O1>()', 'lawful_clone::<A1>()', 'lawful_clone::<O2>()', 'lawful_eq::<O2>()', 'lawful_clone::<A2>()',
              # machine arithmetic: every size that occurs stays small (each F-image is bounded by `small`)
-             'forall|fw: IndexedCoproduct<SemifiniteFunction<O2>>, fx: OpenHypergraph<O2, A2>| #[trigger] sma_sizes(*f, fw, fx)'],
+             # machine arithmetic, stated over what the functor really returns: the image of f's operations is small
+             # (ops_bound is the functor's own size bound) and so are the F-images of f's node, interface and incidence lists
+             'forall|ops: Operations<O1, A1>| #[trigger] is_ops_of(*f, ops) ==> small(functor.ops_bound(ops))',
+             'dma_sizes(*f, |o: O1| functor.obj(o))'],
    ensures=[('C12.define_map_arrow-wf', 'r.wf()'),
             ('C12.define_map_arrow-type', '''is_flat_image(r.src_type(), f.src_type(), |o: O1| functor.obj(o)) && is_flat_image(r.tgt_type(), f.tgt_type(), |o: O1| functor.obj(o))''')],
    proofs=[('start', '''let ops_a0 = Seq::new(f.h.s.values.table@.len(), |p: int| f.h.w@[f.h.s.values.table@[p] as int]);
@@ -201,6 +252,10 @@ fn(FT, 'define_map_arrow', kind='free', status='P', props=['C12', 'C05'],
            ('end', '''let obj = |o: O1| functor.obj(o);
             let ops_a = Seq::new(f.h.s.values.table@.len(), |p: int| f.h.w@[f.h.s.values.table@[p] as int]);
             let ops_b = Seq::new(f.h.t.values.table@.len(), |p: int| f.h.w@[f.h.t.values.table@[p] as int]);
+            lemma_fw_sizes(fw, f.h.w@, obj, f.s.table@); lemma_fw_sizes(fw, f.h.w@, obj, f.t.table@);
+            lemma_fw_sizes(fw, f.h.w@, obj, f.h.s.values.table@); lemma_fw_sizes(fw, f.h.w@, obj, f.h.t.values.table@);
+            assert(f.src_type() =~= Seq::new(f.s.table@.len(), |p: int| f.h.w@[f.s.table@[p] as int]));
+            assert(f.tgt_type() =~= Seq::new(f.t.table@.len(), |p: int| f.h.w@[f.t.table@[p] as int]));
             assert(sma_sizes(*f, fw, fx));
             assert(is_flat_image(fx.src_type(), ops_a, obj) && is_flat_image(fx.tgt_type(), ops_b, obj));
             assert(sma_pre(*f, fw, fx, obj)) by {
@@ -220,3 +275,59 @@ fn(FT, 'define_map_arrow', kind='free', status='P', props=['C12', 'C05'],
 # The implementors of the trait in /repo (Identity, DynFunctor, Optic) are NOT proved to establish the trait
 # contract (it has no size preconditions, their bodies need them; DynFunctor/Optic are outside Verus): for them
 # the contract is an assumption, and their images are checked by the bounded modules C12/C13/C14.
+
+# ---------------------------------------------------------------------------------------------
+# strict/functor/identity.rs: the Identity functor meets the trait contract.  The two method bodies are extracted
+# as free functions (receiver renamed, rule T11) and verified against the trait contract with obj(o) = [o];
+# the trait impl itself is one-line external_body glue (same reason as for operator impls).
+# ---------------------------------------------------------------------------------------------
+raw(r'''
+pub struct Identity;
+''')
+fn(FI, 'map_object', trait='Functor', self_ty='Identity', status='P', props=['C12'], rename='identity_map_object',
+   rules={'self_rename': ['this', '&Identity']}, generics_add=['O: Clone + PartialEq'],
+   requires=['a@.len() < usize::MAX', 'total(flat_sizes(a@, |o: O| seq![o])) < usize::MAX', 'lawful_clone::<O>()'],
+   proofs=[('start', '''assert forall|s: Seq<usize>, i: int| (forall|k: int| 0 <= k < s.len() ==> s[k] == 1) && 0 <= i <= s.len() implies #[trigger] psum(s, i) == i by { lemma_psum_const(s, 1usize, i); }''')],
+   ensures=[('C12.identity-map_object', 'r.wf() && r.sources.table@.len() == a@.len() && (forall|i: int| 0 <= i < a@.len() ==> #[trigger] seg_is(r, i, seq![a@[i]]))')])
+fn(FI, 'map_operations', trait='Functor', self_ty='Identity', status='P', props=['C12'], rename='identity_map_operations',
+   rules={'self_rename': ['this', '&Identity']}, generics_add=['O: Clone + PartialEq, A: Clone'],
+   requires=['ops.wf()', 'ops.a.values@.len() + ops.b.values@.len() < usize::MAX', 'ops.x@.len() < usize::MAX',
+             'small(ops.a.values@.len() + ops.b.values@.len() + ops.x@.len())', 'lawful_clone::<O>()', 'lawful_clone::<A>()'],
+   proofs=[('start', '''assert forall|s: Seq<usize>, i: int| (forall|k: int| 0 <= k < s.len() ==> s[k] == 1) && 0 <= i <= s.len() implies #[trigger] psum(s, i) == i by { lemma_psum_const(s, 1usize, i); }''')],
+   ensures=[('C12.identity-map_operations', '''r.wf() && is_flat_image(r.src_type(), ops.a.values@, |o: O| seq![o]) && is_flat_image(r.tgt_type(), ops.b.values@, |o: O| seq![o])
+                && oh_sizes_le(r, ops.a.values@.len() + ops.b.values@.len() + ops.x@.len())''')])
+
+raw(r'''
+// trait impl of /repo: `impl Functor<K, O, A, O, A> for Identity`; the method bodies are the free functions above (glue: trusted)
+impl<O: Clone + PartialEq, A: Clone> Functor<O, A, O, A> for Identity {
+    open spec fn obj(&self, o: O) -> Seq<O> { seq![o] }
+    open spec fn ops_bound(&self, ops: Operations<O, A>) -> nat { ops.a.values@.len() + ops.b.values@.len() + ops.x@.len() }
+    #[verifier::external_body]
+    fn map_object(&self, a: &SemifiniteFunction<O>) -> (r: IndexedCoproduct<SemifiniteFunction<O>>) { identity_map_object(self, a) }
+    #[verifier::external_body]
+    fn map_operations(&self, ops: Operations<O, A>) -> (r: OpenHypergraph<O, A>) { identity_map_operations(self, ops) }
+}
+
+/// an image under the object map o |-> [o] is the list itself
+pub proof fn lemma_flat_identity<O>(ty: Seq<O>, a: Seq<O>)
+    requires is_flat_image(ty, a, |o: O| seq![o])
+    ensures ty =~= a
+{
+    let k = flat_sizes(a, |o: O| seq![o]);
+    assert forall|i: int| 0 <= i <= a.len() implies #[trigger] psum(k, i) == i by { lemma_psum_const(k, 1usize, i); }
+    assert forall|p: int| 0 <= p < a.len() implies ty[p] == a[p] by {
+        assert(ty[seg_at(k, p, 0)] == (|o: O| seq![o])(a[p])[0]);
+    }
+}
+''', tag='T2-glue:Identity')
+
+fn(FI, 'map_arrow', trait='Functor', self_ty='Identity', status='P', props=['C12'], rename='identity_map_arrow',
+   rules={'self_rename': ['this', '&Identity']}, generics_add=['O: Clone + PartialEq, A: Clone'],
+   requires=['f.wf()', 'lawful_clone::<O>()', 'lawful_clone::<A>()', 'lawful_eq::<O>()',
+             'small(f.h.s.values.table@.len() + f.h.t.values.table@.len() + f.h.x@.len())', 'dma_sizes(*f, |o: O| seq![o])'],
+   ensures=[('C12.identity-map_arrow-wf', 'r.wf()'),
+            ('C12.identity-map_arrow-type', 'r.src_type() =~= f.src_type() && r.tgt_type() =~= f.tgt_type()')],
+   proofs=[('start', '''let obj = |o: O| <Identity as Functor<O, A, O, A>>::obj(this, o);
+            assert(obj =~= (|o: O| seq![o]));
+            assert forall|ty: Seq<O>, a: Seq<O>| #[trigger] is_flat_image(ty, a, obj) implies ty =~= a by { lemma_flat_identity(ty, a); }
+            assert(dma_sizes(*f, obj));''')])
